@@ -45,6 +45,8 @@ var rangeColl = map[string][2]string{ // kind -> variable, type
 	"int0": {"n0", "int"}, "map1": {"m1", "map[int]int"},
 }
 
+var namedColl = map[string]string{"slice": "rt.SliceT", "array": "rt.ArrT", "string": "rt.StrT", "int": "rt.IntT", "chan": "rt.ChanT"}
+
 const rangeProlog = `	s := append(make([]int, 0, 4), 10, 20, 30)
 	arr := [3]int{10, 20, 30}
 	str := "a\u00e9\xffz"
@@ -78,7 +80,13 @@ func (sr *srcRenderer) rangeStmt(m J, ind string) string {
 		}
 		return "", "-7"
 	}
+	if m["xf"] == "named" {
+		x = namedColl[kind] + "(" + coll[0] + ")"
+	}
 	kl, kr := name(str(m["kf"]), "k", "kk")
+	if m["xf"] == "named" && kind == "int" && m["kf"] == "def" {
+		kr = "int(k)"
+	}
 	vl, vr := name(str(m["vf"]), "v", "vv")
 	if m["vf"] == "idx" { // the second operand is indexed by the first
 		vl, vr = "w[kk+1]", "-7"
@@ -437,6 +445,12 @@ func (sr *srcRenderer) unsup(m J, ind string) string {
 		t = fmt.Sprintf("for v := range rt.Seq3 {\n\t%s\n}\n", Y("v"))
 	case "rtparam":
 		t = fmt.Sprintf("for _, v := range ts {\n\t%s\n}\n", Y("v"))
+	case "lrange":
+		t = fmt.Sprintf("L:\n\tfor _, v := range []int{10, 20} {\n\t\tfor r.T(%d) {\n\t\t\t%s\n\t\t\tcontinue L\n\t\t}\n\t\tr.E(%d, v, 0)\n\t}\n", id, Y("v"), id+2)
+	case "clo-lrange":
+		t = fmt.Sprintf("func() {\nL:\n\tfor _, v := range []int{10, 20} {\n\t\tfor r.T(%d) {\n\t\t\tr.E(%d, v, 0)\n\t\t\tcontinue L\n\t\t}\n\t\tr.E(%d, v, 0)\n\t}\n}()\n", id, id+1, id+2)
+	case "clo-selbrk":
+		t = fmt.Sprintf("func() {\n\tselect {\n\tcase v := <-rt.Ch(7):\n\t\tif r.T(%d) {\n\t\t\tbreak\n\t\t}\n\t\tr.E(%d, v, 0)\n\t}\n}()\n", id, id+1)
 	case "clo-lbreak":
 		t = fmt.Sprintf("func() {\nL:\n\tfor r.T(%d) {\n\t\tfor r.T(%d) {\n\t\t\tr.E(%d, a, b)\n\t\t\tbreak L\n\t\t}\n\t}\n}()\n", id, id+1, id+2)
 	case "clo-goto":
